@@ -747,12 +747,13 @@ Error BaseBuilder::embed_const_pool(const Label& label, const ConstPool& pool) {
     }
   }
 
-  ASMJIT_PROPAGATE(align(AlignMode::kData, uint32_t(pool.alignment())));
-  ASMJIT_PROPAGATE(bind(label));
-
+  // Create the data node first - if this fails nothing has been added yet (no alignment, and the label stays unbound).
   EmbedDataNode* node;
   ASMJIT_PROPAGATE(new_embed_data_node(Out(node), TypeId::kUInt8, nullptr, pool.size()));
   ASMJIT_ASSUME(node != nullptr);
+
+  ASMJIT_PROPAGATE(align(AlignMode::kData, uint32_t(pool.alignment())));
+  ASMJIT_PROPAGATE(bind(label));
 
   pool.fill(node->data());
   add_node(node);
